@@ -10,7 +10,8 @@ tie:    harness/c14_eval.c drives mps_polynomial_{f,d,m}eval on generated (input
         evaluated here in exact rational arithmetic.
 
 Predicate (u = 2^-53 for double and DPE, u = 2^-wp for multiprecision, wp = mpc_get_prec(x)):
-    monomial   |v - p(x)|       <= (K n + 2) u p~(|x|)                         K = 20/9 * (mu/u)
+    monomial   |v - p(x)|       <= (K n + 2) u p~(|x|)                         K = 20/9 * (mu/u)   (C14_horner_apriori_linear)
+    sparse MP  |v - p(x)|       <= (10/9 (2^q + q - 1) mu/u + 2) u p~(|x|)     q = ceil(log2(n+2))  (C14_sparse_apriori)
     Chebyshev  |v - sum c_k T_k(x)| <= (10/9)(3n+2) (mu/u) u  sum|c_k| T~_k(|x|)
     secular    |v - P(x)|       <= (10/9)(3n+4) (mu/u) u (sum|a_i|/|x-b_i| + 1) prod|x-b_i|
     MP         estimate >= |v - exact|                (all three kinds)
@@ -411,10 +412,14 @@ def case_to_json(case, ev):
     return c
 
 # ----------------------------------------------------------------------------- judging
-def bound_for(kind, n, arith_mp, wp, cond):
+def bound_for(kind, n, arith_mp, wp, cond, sparse=False):
     mu = MU_MP if arith_mp else MU_FP
     u = Fr(1, 2 ** wp) if arith_mp else U53
-    if kind == "M": k = Fr(20, 9) * mu * n + 2
+    if kind == "M" and sparse:
+        # C14_sparse_apriori: exponent 2^q + q - 1 with the code's q = ceil(log2(#coefficients + 1))
+        q = (n + 1).bit_length()          # smallest q with 2^q >= n + 2
+        k = Fr(10, 9) * mu * (2 ** q + q - 1) + 2
+    elif kind == "M": k = Fr(20, 9) * mu * n + 2
     elif kind == "C": k = Fr(10, 9) * (3 * n + 2) * mu
     else: k = Fr(10, 9) * (3 * n + 4) * mu
     return k * u * cond
@@ -469,7 +474,7 @@ class Judge:
                 self.flags_bad += 1
                 ctx.violation("correspondence:exact-twin-scheme-differs:%s" % kind,
                               "the exact twin of the coded scheme differs from the specification value", rep, no_input=True)
-        B = bound_for(kind, n, arith == "M", wp, cond)
+        B = bound_for(kind, n, arith == "M", wp, cond, sparse=(tag == "meval-sparse"))
         e2 = abs2(vre - pre, vim - pim)
         self.evals += 1
         if e2 != 0: self.nontrivial += 1
@@ -704,8 +709,8 @@ def run(ctx):
             "Coq 8.16.1 kernel; Coquelicot Complex; axioms of the standard library reals as printed by Print Assumptions",
             "extraction (ExtrOcamlBasic, ExtrOcamlNativeString only) of the exact Gaussian-rational twin; ocaml/eval_driver.ml (number parsing/printing)",
             "harness/c14_eval.c (exports double bit patterns, DPE mantissa+exponent, mpf mantissa exactly) and Python fractions for the predicate",
-            "modelled, not verified: that the C arithmetic satisfies the standard model with the constants mu above (C12/C13 are about that); the bound for the rounded sparse scheme and the rounded Chebyshev recurrence (constants documented, exact-arithmetic correctness is proved); the guard-bit hypothesis of C14_mp_estimate_bounds_error about GMP, whose consequence is tested on every MP run",
-            "the rational upper bound qsqrt_up of moduli (relative excess about 2^-60) makes the tested bound at most that much larger than the stated one",
+            "modelled, not verified: that the C arithmetic satisfies the standard model with the constants mu above (C12/C13 are about that); the guard-bit hypothesis of C14_mp_estimate_bounds_error about GMP, whose consequence is tested on every MP run",
+            "the rational bound of p~(|x|) computed by the twin is PROVED to be an upper bound (C14_twin_bound; excess about 2^-60 per rounding); the analogous bounds chebabs_q and sec_abs_q of the Chebyshev and secular condition quantities use the same proved roundings qsqrt_up/qup but their end-to-end statement is not proved",
         ],
     }
     assumptions = [
